@@ -34,6 +34,9 @@ thread_local! {
     static SEQ: Cell<u64> = const { Cell::new(0) };
     static LIVE_WRITERS: Cell<i64> = const { Cell::new(0) };
     static LAST_PANIC: std::cell::RefCell<String> = const { std::cell::RefCell::new(String::new()) };
+    /// the property whose check is running: a panic inside redb on a fault-free execution is
+    /// charged to it
+    static PROP: std::cell::RefCell<String> = const { std::cell::RefCell::new(String::new()) };
 }
 
 fn ev() -> u64 {
@@ -1077,11 +1080,16 @@ pub fn run_plan(plan: &Plan) -> ExecResult {
     let mut deadlock = false;
     if r.is_err() {
         let msg = LAST_PANIC.with(|p| p.borrow().clone());
-        let prop = match plan.scenario {
-            Scenario::Shared { .. } => "C16",
-            Scenario::Lifecycle { .. } => "C20",
-            Scenario::Compact { .. } => "C13",
-            _ => "C03",
+        let under = PROP.with(|p| p.borrow().clone());
+        let prop: &str = if !under.is_empty() {
+            &under
+        } else {
+            match plan.scenario {
+                Scenario::Shared { .. } => "C16",
+                Scenario::Lifecycle { .. } => "C20",
+                Scenario::Compact { .. } => "C13",
+                _ => "C03",
+            }
         };
         if msg.contains("deadlock") {
             deadlock = true;
@@ -1254,6 +1262,7 @@ pub fn cli(args: &[String]) -> i32 {
                     return 2;
                 }
             };
+            PROP.with(|p| *p.borrow_mut() = rep.property.clone());
             let r = run_plan(&rep.plan);
             println!("schedule hash {:016x} (recorded {:016x}), {} steps, {} context switches", r.hash, rep.schedule_hash, r.steps, r.switches);
             match r.viols.first() {
@@ -1347,6 +1356,7 @@ pub fn cli(args: &[String]) -> i32 {
 fn explore(prop: &str, tier: &str, execs: u64, max_secs: u64, threads: usize, status_dir: Option<String>, only: Option<u64>) -> i32 {
     let seed = std::env::var("VERIF_SEED").ok().and_then(|s| s.parse().ok()).unwrap_or(20260922u64);
     let thorough = tier == "thorough";
+    PROP.with(|p| *p.borrow_mut() = prop.to_string());
     let start = Instant::now();
     let next = AtomicU64::new(0);
     let stop = AtomicBool::new(false);
@@ -1382,6 +1392,7 @@ fn explore(prop: &str, tier: &str, execs: u64, max_secs: u64, threads: usize, st
         for _ in 0..threads {
             s.spawn(|| {
               let my = tid.fetch_add(1, Ordering::Relaxed);
+              PROP.with(|p| *p.borrow_mut() = prop.to_string());
               let status = status_dir.as_ref().and_then(|d| std::fs::File::create(format!("{d}/t{my}")).ok());
               loop {
                 if stop.load(Ordering::Relaxed) || start.elapsed().as_secs() >= max_secs {
